@@ -399,7 +399,8 @@ class Rule(MethodMeek):
             #
             if C.hopeful():
                 low_vote = V.min([c.vote for c in C.hopeful()])
-                low_candidates = [c for c in C.hopeful() if (low_vote + E.surplus) >= c.vote]
+                slack = E.surplus if E.surplus > V0 else V0   # truncation can leave the total surplus a hair below zero
+                low_candidates = [c for c in C.hopeful() if (low_vote + slack) >= c.vote]
                 low_candidate = breakTie(E, low_candidates, 'defeat')
                 if iterationStatus == IS_omega:
                     low_candidate.defeat(msg='Defeat (surplus %s < omega)' % E.surplus)
